@@ -209,6 +209,10 @@ TWINS_REGEX: list[tuple[str, str, str, str, str]] = [
 # archived seeded changes the checks are known not to decide (value-level behaviour with no structural necessary condition); see DESIGN.md 9.5
 DOCUMENTED_MISSES = {
     "seed-C10-2": "integer-suffix ladder of the expression tokenizer: which literal spellings are accepted is value-level, not decided statically",
+    "seed-C05-r4-3": "'unsigned char' re-aliased from char to uint8: the property speaks of the type char; the built-in table oracle deliberately accepts both "
+                     "readings of 'unsigned char' (raw byte as the library has it, 8-bit unsigned as C has it), so no rule claims the spelling",
+    "seed-C20-r4-2": "legacy parser registers the typedef names before the struct tag: only the insertion order of cs.typedefs changes; the stub generator "
+                     "declares a class under the first key it meets - no structural necessary condition on the legacy parser's order is claimed",
 }
 
 
